@@ -1919,6 +1919,15 @@ def match_finding(f, k):
                 return False
         if any(got[n] != cur[n] for n in got if n not in new_names):
             return False
+    if r.get("rc_applied_again"):
+        # exactly ONE wrong answer: every sequence is the reverse complement of the right one (the displayed strings were
+        # stored together with the old reversed record)
+        got, want = f.get("got"), f.get("expected")
+        if not ops or ops[-1][0] != "trim_stop_codons" or not isinstance(got, dict) or not isinstance(want, dict) or list(got) != list(want):
+            return False
+        tab = RNA_COMP if any("U" in v for v in want.values()) else DNA_COMP
+        if any(got[n] != want[n][::-1].translate(tab) for n in got):
+            return False
     if r.get("pad_wrong_end"):
         # exactly ONE wrong answer: every sequence padded in FRONT of what it displayed (the padding was appended to the
         # stored plus-strand data of a reversed sequence)
